@@ -76,6 +76,20 @@ Theorem C07_rewrite_eq_spec :
 Proof. exact (rewrite_eq_spec C07_fact_slow_search_longest C07_fact_lowercase_guard C07_fact_path_guard). Qed.
 Print Assumptions C07_rewrite_eq_spec.
 
+(* normalize_spec is the function of the property text: nothing for the empty text; where a table key starts, the longest
+   such key is replaced by its value and the scan continues behind it; any other character is lower-cased and, unless
+   exempt, NFKC-normalised (spec_char), on its own *)
+Theorem C07_spec_is_property_text :
+  forall (lower : cp -> text) (nfkc : text -> text) (tb : table) (ign : cp -> bool),
+    table_wf tb = true ->
+    normalize_spec lower nfkc tb ign [] = []
+    /\ (forall t n v, longest_match tb t = Some (n, v) ->
+          normalize_spec lower nfkc tb ign t = v ++ normalize_spec lower nfkc tb ign (skipn n t))
+    /\ (forall c t, longest_match tb (c :: t) = None ->
+          normalize_spec lower nfkc tb ign (c :: t) = spec_char lower nfkc ign c ++ normalize_spec lower nfkc tb ign t).
+Proof. exact spec_unfold. Qed.
+Print Assumptions C07_spec_is_property_text.
+
 (* the key replaced at a position is the longest table key starting there *)
 Theorem C07_longest_key :
   forall (tb : table) t n v, longest_match tb t = Some (n, v) ->
@@ -118,6 +132,13 @@ Theorem C07_psm_edits_sound :
                 /\ match nth_error t (p + n) with Some c => mark c = false | None => True end.
 Proof. exact psm_edits_sound. Qed.
 Print Assumptions C07_psm_edits_sound.
+
+(* ... nor to the left: it starts the text or follows a character that is not a mark (so the runs are maximal) *)
+Theorem C07_psm_edits_left_maximal :
+  forall (mark : cp -> bool) (sym t : text) e, In e (psm_edits mark sym t) ->
+    e_start e = 0 \/ exists p, e_start e = S p /\ is_mark_at mark t p = false.
+Proof. exact psm_edits_left_maximal. Qed.
+Print Assumptions C07_psm_edits_left_maximal.
 
 (* ... and every run of >= 2 marks met by the scan outside an earlier match is rewritten *)
 Theorem C07_psm_complete :
